@@ -55,6 +55,9 @@ def nontrivial(request, impl):
     if proto == "trivia":
         # non-trivial: at least one comment token
         return any(x[0] in "LBS" for x in parts[2].split(";"))
+    if proto == "semi":
+        # non-trivial: a semicolon was written
+        return parts[3] == "1"
     if proto == "sortreq":
         # non-trivial: sorting enabled and at least two require/GetService items
         return parts[2] == "1" and (parts[3].count(":r:") + parts[3].count(":g:")) >= 2
@@ -77,7 +80,7 @@ HOOK_COMMITS = ["fb76d1e verif hook: call counters behind --cfg stylua_verif", "
 PROPS["C04"] = {
     "lean_modules": ["StyluaModel.Props.C04"],
     "theorem_prefix": "C04_",
-    "required_theorems": ["C04_value_51", "C04_value_52", "C04_wf", "C04_num_id", "C04_num_dot", "C04_long", "C04_long_lone_cr_witness"],
+    "required_theorems": ["C04_value_51", "C04_value_52", "C04_wf", "C04_num_id", "C04_num_dot", "C04_long", "C04_long_lone_cr_witness", "C04_regex_pinned", "C04_escape_class"],
     "hx": [["c04"]],
     "level": "proof",
     "level_text": "Proof: Lean theorems (unbounded body length, all quote styles) that the modelled quoted-string rewrite preserves the Lua 5.1 value, the Lua 5.2+ value when defined, and lexability as one string token; a long-bracket body keeps its value under both line_endings settings whenever every carriage return is followed by a line feed (the excluded case is a proven counterexample and a known finding); number rewrite only adds a leading 0. The model is tied to general.rs by an exhaustive small-scope byte-for-byte correspondence on every run.",
@@ -123,7 +126,7 @@ PIPE_RULE = ("ring 3 (closed set): the repository's 367 test inputs (+ committed
 PROPS["C01"] = {
     "lean_modules": ["StyluaModel.Props.C01"],
     "theorem_prefix": "C01_",
-    "required_theorems": ["C01_binops_spaced", "C01_binop_table_complete", "C01_unops_shape", "C01_no_minus_minus", "C01_expr_reparses", "C01_expr_parses_back", "C01_faithful_parses", "C01_parser_answers_right", "C01_type_wellformed", "C01_string_token"],
+    "required_theorems": ["C01_binops_spaced", "C01_binop_table_complete", "C01_unops_shape", "C01_no_minus_minus", "C01_expr_reparses", "C01_expr_parses_back", "C01_faithful_parses", "C01_parser_answers_right", "C01_type_wellformed", "C01_string_token", "C01_semicolon_kinds"],
     "hx": [["c05"], ["c02t"], ["c08"], ["pipe"], ["slots"], ["progen"]],
     "level": "proof",
     "level_text": "Proof, partial: theorems cover the expression-level edit closure (every parenthesis edit yields a tree that re-parses to itself, for all oracles), the `- -` clause, string tokens staying one token, and the operator-text table regenerated from the compiled code on every run. The statement-level grammar and the claim that every separator emitted by the ~150 trivia sites is safe are carried by the correspondence and the closed-set re-parse oracle only.",
@@ -196,16 +199,16 @@ PROPS["C12"] = {
 PROPS["C09"]["hx"] = [["c08"], ["c12"], ["c03"]]
 PROPS["C08"]["hx"] = [["c08"], ["c12"]]
 
-TRIVIA_RULE = ("ring 2 (`trivia`): seeded leading-trivia sequences (blank lines, indentation, line comments with trailing blanks / interior CR / non-ASCII, block comments of level 0-2 with LF, CRLF and mixed interiors) in LF and CRLF files, formatted under both line_endings; the bytes the real formatter puts in front of the token must equal the model's rendering of load_token_trivia. distinct_nontrivial = requests with at least one comment. ")
+TRIVIA_RULE = ("ring 2 (`semi`): seeded statement pairs A;B - A one of 6 kinds with 0-2 trailing comments, the semicolon absent or present on A's line or on a line of its own below 0-2 comment lines, followed by 0-2 comments; B beginning with a parenthesis or not; LF and CRLF output - the bytes between A's last token and B must equal the rendering of Model/Semi.lean given the trailing trivia the formatter gives A alone. ring 2 (`trivia`): seeded leading-trivia sequences (blank lines, indentation, line comments with trailing blanks / interior CR / non-ASCII, block comments of level 0-2 with LF, CRLF and mixed interiors) in LF and CRLF files, formatted under both line_endings; the bytes the real formatter puts in front of the token must equal the model's rendering of load_token_trivia. distinct_nontrivial = requests with at least one comment. ")
 
 PROPS["C03"] = {
     "lean_modules": ["StyluaModel.Props.C03"],
     "theorem_prefix": "C03_",
-    "required_theorems": ["C03_load", "C03_text_line", "C03_text_block", "C03_paren_partial", "C03_sort_perm", "C03_eof_comments"],
+    "required_theorems": ["C03_load", "C03_text_line", "C03_text_block", "C03_paren_partial", "C03_sort_perm", "C03_eof_comments", "C03_semi_required", "C03_semi_removed", "C03_semi_removed_needs_newline", "C03_semi_swallow_witness"],
     "hx": [["c03"], ["pipe"], ["slots"], ["c12"], ["progen"]],
     "level": "proof",
-    "level_text": "Proof, partial: load_token_trivia (through which every token's trivia passes) keeps every comment once, in order, with kind and level, text normalised only by trim_end / newline conversion (theorems for lists of any length); the parenthesis transplant carries a sublist (full preservation is proven false of the code: counterexample theorem); require sorting is a permutation. That every construct routes every token through these functions is carried by the comment-slot enumeration (every token gap of 46 constructs) and the corpus census, whose unchanged-tree failures are listed exactly.",
-    "level_note": "Trusted: Lean kernel; Model/Trivia.lean tied by the `trivia` correspondence (~1.4e4 requests per run); census oracle uses full_moon's tokenizer on input and output. Most transplant sites (semicolons, commas, hang_binop, call sugar, table keys) have no model yet: they are covered by ring 3 only.",
+    "level_text": "Proof, partial: load_token_trivia (through which every token's trivia passes) keeps every comment once, in order, with kind and level, text normalised only by trim_end / newline conversion (theorems for lists of any length); the parenthesis transplant carries a sublist (full preservation is proven false of the code: counterexample theorem); require sorting is a permutation; the trivia of a kept, added or dropped semicolon (format_block) carries every comment of the statement and of the semicolon once and in order - given the statement's trailing trivia ends with its newline, and with the same-line swallowing by a trailing line comment exhibited as a computed witness (D23 family). That every construct routes every token through these functions is carried by the comment-slot enumeration (every token gap of 46 constructs) and the corpus census, whose unchanged-tree failures are listed exactly.",
+    "level_note": "Trusted: Lean kernel; Model/Trivia.lean tied by the `trivia` correspondence (~1.4e4 requests per run), Model/Semi.lean by the `semi` correspondence (the bytes between a statement and its successor, for 6 statement kinds x comments before / after the semicolon x required or not x both line endings; ~3e3 distinct requests); census oracle uses full_moon's tokenizer on input and output. The other transplant sites (commas, hang_binop, call sugar, table keys) have no model yet: they are covered by ring 3 only.",
     "technique": "Lean 4 proofs on the trivia loader + comment-slot enumeration + census oracle",
     "rule": TRIVIA_RULE + PIPE_RULE + SLOT_RULE,
     "trusted_base": ["comment census: multiset of (kind, level, text) with line comments trimmed at the end and CRLF->LF inside block comments"],
@@ -229,7 +232,7 @@ PROPS["C10"] = {
 PROPS["C11"] = {
     "lean_modules": ["StyluaModel.Props.C11"],
     "theorem_prefix": "C11_",
-    "required_theorems": ["C11_force", "C11_auto", "C11_call_always", "C11_call_input", "C11_call_omit", "C11_call_other", "C11_space"],
+    "required_theorems": ["C11_force", "C11_auto", "C11_call_always", "C11_call_input", "C11_call_omit", "C11_call_other", "C11_space", "C11_omit_modes"],
     "hx": [["c11"], ["pipe"], ["slots"]],
     "level": "proof",
     "level_text": "Proof of the decision logic stated outright: forced quotes; preferred quote unless the other needs strictly fewer escapes (for bodies of any length); the call-parentheses table for all five modes, every written form and both next-suffix cases; the spacing table. That the options are consulted on every layout path is carried by the exhaustive `callform`/`fnspace`/`strlit` correspondence (two widths) and by the option-rule oracle applied to every output of the closed corpus and slot sets under every option value.",
@@ -243,10 +246,10 @@ PROPS["C11"] = {
 PROPS["C06"] = {
     "lean_modules": ["StyluaModel.Props.C06"],
     "theorem_prefix": "C06_",
-    "required_theorems": ["C06_strlit", "C06_number", "C06_semicolon", "C06_sort", "C06_comment_text", "C06_paren_idem", "C06_paren_idem_faithful", "C06_paren_not_idempotent", "C06_table_multi_stable", "C06_table_single_stable", "C06_table_growth_witness"],
+    "required_theorems": ["C06_strlit", "C06_number", "C06_semicolon", "C06_sort", "C06_comment_text", "C06_paren_idem", "C06_paren_idem_faithful", "C06_paren_not_idempotent", "C06_table_multi_stable", "C06_table_single_stable", "C06_table_growth_witness", "C06_trivia"],
     "hx": [["pipe"], ["slots"], ["c05"], ["c06t"]],
     "level": "proof",
-    "level_text": "Proof, partial — the property the technique serves least: idempotence theorems for every decision mechanism that has a model (string and number rewriting, semicolon decisions, sorted require groups, comment text), and a proven counterexample for the parenthesis rule (`(- -f())`, found by evaluating the model). Whether the second pass takes the same layout path as the first is a fact about Shape arithmetic and ~40 heuristics that are not modelled: it is checked on the closed sets only (corpus x 79 configurations, width sweep 1..130 of catalogue one-liners, comment-slot enumeration), whose unchanged-tree failures are listed exactly.",
+    "level_text": "Proof, partial — the property the technique serves least: idempotence theorems for every decision mechanism that has a model (string and number rewriting, semicolon decisions, sorted require groups, comment text, the leading-trivia loader applied to its own re-tokenised output: blank-line runs, comment lines), and a proven counterexample for the parenthesis rule (`(- -f())`, found by evaluating the model). Whether the second pass takes the same layout path as the first is a fact about Shape arithmetic and ~40 heuristics that are not modelled: it is checked on the closed sets only (corpus x 79 configurations, width sweep 1..130 of catalogue one-liners, comment-slot enumeration), whose unchanged-tree failures are listed exactly.",
     "level_note": "Trusted: Lean kernel; models tied by their own correspondences (C04, C05, C08, C12, C03 protocols); byte comparison format(format(p)) = format(p) on the real library.",
     "technique": "Lean 4 idempotence proofs per mechanism + byte-for-byte idempotence oracle on closed sets incl. width sweeps",
     "rule": PIPE_RULE + SLOT_RULE + "ring 2: `expr` correspondence (C05); `tabledec` (the table layout decision measured on the input AST vs observed in the output, random spacings x widths around the threshold).",
